@@ -65,7 +65,21 @@ const FIXED: &[&str] = &[
 	"\u{ff11}.2.3", "1.2.\u{0663}", "0x1.2.3", "1e1.2.3", "+1.2.3", "1.+2.3", "1.2.+3", "++1.2.3", "+.2.3", "01.2.3", "1.02.3", "1.2.003", "00.0.0", "000.000.000", "0255.0.0", "999999999999999999999.1.1", "1.2.3.4.5", "3.16.0", "0.0.0", "255.255.255", "3_16_0", "3.16", "v3.16.0", "3.16.0-beta", "1.2.3\0", "\u{0}1.2.3", "1.2.٣",
 ];
 
+/// Long inputs (30-90 bytes) with multi-byte characters at every alignment.
+fn gen_long_string(rng: &mut Rng) -> String {
+	const ATOMS: &[&str] = &["1", "25", ".", "x", "é", "あ", "😀", "\u{ff11}", "0", "9", " ", "-"];
+	let target = rng.range(30, 90);
+	let mut s = String::new();
+	while s.len() < target {
+		s.push_str(*rng.pick(ATOMS));
+	}
+	s
+}
+
 fn gen_string(rng: &mut Rng) -> String {
+	if rng.chance(1, 8) {
+		return gen_long_string(rng);
+	}
 	const ALPHA: &[&str] = &["0", "1", "2", "5", "9", "25", "255", "256", "30", ".", ".", ".", ".", "+", "-", " ", "a", "", "00", "\u{ff10}"];
 	let n = rng.range(0, 9);
 	(0..n).map(|_| *rng.pick(ALPHA)).collect()
@@ -131,7 +145,7 @@ impl Monitor for C20 {
 		"C20"
 	}
 	fn rule(&self) -> String {
-		"gte/lt are compared with the lexicographic definition: quick = all 2^16 (major,minor) x the 26 gate thresholds used in the code +-1 in each component, plus 200000 seeded random (version, threshold) pairs; thorough = all 2^16 x 2^16 pairs (exhaustive). Display/parse round trip for both Version types: quick = all (major,minor,0), all (0,0,patch), (255,255,patch) and 100000 random triples; thorough = all 2^24 triples. Rejection: a fixed list of malformed strings plus generated strings over a digit/dot/sign/space/letter alphabet, classified by a reference grammar (canonical -> must parse to that value; leading '+' or leading zeros -> debatable: may be rejected, value must be right if accepted; everything else -> must be rejected). distinct = (check kind, outcome) classes.".into()
+		"gte/lt are compared with the lexicographic definition: quick = all 2^16 (major,minor) x the 26 gate thresholds used in the code +-1 in each component, plus 200000 seeded random (version, threshold) pairs; thorough = all 2^16 x 2^16 pairs (exhaustive). Display/parse round trip for both Version types: quick = all (major,minor,0), all (0,0,patch), (255,255,patch) and 100000 random triples; thorough = all 2^24 triples. Rejection: a fixed list of malformed strings plus generated strings over a digit/dot/sign/space/letter alphabet (1 in 8 is 30-90 bytes long with multi-byte characters at every alignment), classified by a reference grammar (canonical -> must parse to that value; leading '+' or leading zeros -> debatable: may be rejected, value must be right if accepted; everything else -> must be rejected). distinct = (check kind, outcome) classes.".into()
 	}
 	fn exhaustive(&self, tier: Tier) -> bool {
 		tier == Tier::Thorough
